@@ -66,7 +66,9 @@ Definition chase_model (depth0 chain_len loop_at loop_to : N) : N * N :=
 (* ------------------------------------------------------------------ program trees *)
 
 (* values carried in the context *)
-Record cx := mk_cx { cx_be : bool; cx_chase : nat; cx_dname : nat; cx_nsl : bool }.
+(* cx_walk: contextKeyV6Walk — set on the context of the detached IPv6 nameserver walk (fix 1508bf1) and inherited by
+   everything that runs inside it *)
+Record cx := mk_cx { cx_be : bool; cx_chase : nat; cx_dname : nat; cx_nsl : bool; cx_walk : bool }.
 (* what the context of a sub-pipeline run carries: queryerDepthKey and the rest *)
 (* mk_sl: a run of the sub-pipeline (Queryer.Query); mk_dl: a direct sub-resolution (Resolver.subQuery, the DS / DNSKEY
    fetches of validation) — it does not pass the sub-pipeline and leaves the context as it is *)
@@ -75,10 +77,11 @@ Definition sl_nest (l : slabel) : nat := match l with mk_sl n _ | mk_dl n _ => n
 Definition sl_cx (l : slabel) : cx := match l with mk_sl _ c | mk_dl _ c => c end.
 Definition sl_direct (l : slabel) : bool := match l with mk_sl _ _ => false | mk_dl _ _ => true end.
 (* the context a detached job's queries start from: best-effort, marked as a nameserver lookup, every depth counter
-   at 0 (context.Background() plus the ledger and the attempt guard) *)
-Definition cx_fresh : cx := mk_cx true O O true.
+   at 0 (context.Background() plus the ledger and the attempt guard), and marked as a walk *)
+Definition cx_fresh : cx := mk_cx true O O true true.
 Definition cx_eqb (a b : cx) : bool :=
-  Bool.eqb (cx_be a) (cx_be b) && (cx_chase a =? cx_chase b)%nat && (cx_dname a =? cx_dname b)%nat && Bool.eqb (cx_nsl a) (cx_nsl b).
+  Bool.eqb (cx_be a) (cx_be b) && (cx_chase a =? cx_chase b)%nat && (cx_dname a =? cx_dname b)%nat && Bool.eqb (cx_nsl a) (cx_nsl b) &&
+  Bool.eqb (cx_walk a) (cx_walk b).
 
 Inductive prog (A : Type) : Type :=
 | Ret (a : A)
@@ -166,7 +169,7 @@ Fixpoint steps_ok (enf : bool) (maxo maxi : N) (nx ns po pi : N) (tr : list even
 (* how the context of a sub-pipeline run derives from the context of the run that asked for it: exactly
    one of the three reasons the resolver and the cache middleware have for an internal query *)
 Definition child_cx_ok (v6 : bool) (p c : cx) : bool :=
-  ( (* CNAME chase (Cache.additionalAnswer): chase depth + 1, only below maxCnameChaseDepth *)
+  (( (* CNAME chase (Cache.additionalAnswer): chase depth + 1, only below maxCnameChaseDepth *)
     (cx_chase c =? S (cx_chase p))%nat && (N.of_nat (cx_chase p) <? max_cname_chase_depth) &&
     (cx_dname c =? cx_dname p)%nat && Bool.eqb (cx_nsl c) (cx_nsl p) && Bool.eqb (cx_be c) (cx_be p))
   || (* DNAME target follow-up (Resolver.checkDname): DNAME depth + 1, only below maxDnameDepth *)
@@ -174,16 +177,19 @@ Definition child_cx_ok (v6 : bool) (p c : cx) : bool :=
     (cx_chase c =? cx_chase p)%nat && Bool.eqb (cx_nsl c) (cx_nsl p) && Bool.eqb (cx_be c) (cx_be p))
   || (* nameserver address lookup (lookupNSAddrV4/V6 from lookupV4Nss / checkHosts): marked contextKeyNSL *)
    (cx_nsl c && (cx_chase c =? cx_chase p)%nat && (cx_dname c =? cx_dname p)%nat &&
-    Bool.eqb (cx_be c) (cx_be p)).
+    Bool.eqb (cx_be c) (cx_be p)))
+  (* whatever the reason: the walk mark travels with the context *)
+  && Bool.eqb (cx_walk c) (cx_walk p).
 
-(* the first query of a detached IPv6 walk: nesting 1 on the fresh context, whatever run the walk was spawned from *)
+(* the first query of a detached IPv6 walk: nesting 1 on the fresh, walk-marked context *)
 Definition detached_root (v6 : bool) (ch : slabel) : bool :=
   v6 && negb (sl_direct ch) && (sl_nest ch =? 1)%nat && cx_eqb (sl_cx ch) cx_fresh.
 
 Definition child_ok (v6 : bool) (par ch : slabel) : bool :=
   (negb (sl_direct ch) && (sl_nest ch =? S (sl_nest par))%nat && (sl_nest ch <=? N.to_nat max_queryer_recursion)%nat &&
    child_cx_ok v6 (sl_cx par) (sl_cx ch))
-  || detached_root v6 ch
+  || (* a walk is started by a run that is not itself inside a walk (processDelegation tests contextKeyV6Walk) *)
+     (negb (cx_walk (sl_cx par)) && detached_root v6 ch)
   || (* a direct sub-resolution: same nesting, same context *)
      (sl_direct ch && (sl_nest ch =? sl_nest par)%nat && cx_eqb (sl_cx ch) (sl_cx par)).
 
@@ -394,7 +400,7 @@ Section Skeleton.
     Variable vq : cx -> prog vres.
     Variable c : cx.
 
-    Definition nsl_cx : cx := mk_cx (cx_be c) (cx_chase c) (cx_dname c) true.
+    Definition nsl_cx : cx := mk_cx (cx_be c) (cx_chase c) (cx_dname c) true (cx_walk c).
 
     (* answer() / authority() / validateDelegation(): validate first; a bogus result or a failed DS/DNSKEY fetch is an
        error, a work-limit error travels up unchanged *)
@@ -407,7 +413,7 @@ Section Skeleton.
         match a with
         | O => Ret RResp
         | _ => if (N.of_nat (cx_dname c) <? max_dname_depth)
-               then bind (nq (mk_cx (cx_be c) (cx_chase c) (S (cx_dname c)) (cx_nsl c)))
+               then bind (nq (mk_cx (cx_be c) (cx_chase c) (S (cx_dname c)) (cx_nsl c) (cx_walk c)))
                          (fun r => match r with
                                    | ReplyOk => Ret RResp
                                    | ReplyWork e _ => Ret (RWork e)
@@ -486,7 +492,8 @@ Section Skeleton.
                             | right _ => Ret RErr
                             end
                           | _ =>
-                            bind (if v6 then Choose Fmax (fun h6 => ns_lookups nq0 cx_fresh false h6) else Ret None) (fun _ =>
+                            (* the detached IPv6 walk — not from inside a walk: `r.cfg.IPv6Access && ctx.Value(contextKeyV6Walk) == nil` *)
+                            bind (if v6 && negb (cx_walk c) then Choose Fmax (fun h6 => ns_lookups nq0 cx_fresh false h6) else Ret None) (fun _ =>
                               match inspectb (1 <? depth)%nat with
                               | left E => Choose Smax (fun n' => Choose qmin (fun lvl' => rec (depth - 1)%nat nomin true lvl' n' (ob_descend depth nomin unch lvl lvl' E)))
                               | right _ => Ret RErr
@@ -552,7 +559,7 @@ Section Skeleton.
         Choose 1 (fun more =>
           match more with
           | O => Ret ReplyOk                                       (* nothing (more) to chase *)
-          | _ => bind (nq (mk_cx (cx_be c) (S (cx_chase c)) (cx_dname c) (cx_nsl c)))
+          | _ => bind (nq (mk_cx (cx_be c) (S (cx_chase c)) (cx_dname c) (cx_nsl c) (cx_walk c)))
                    (fun r => match r with
                              | ReplyWork e _ => Ret (ReplyWork e false)   (* SetRcodeWithEDE(msg, ...) on the chased message: no client OPT there *)
                              | ReplyLocal => Ret ReplyLocal
@@ -689,10 +696,19 @@ Section Skeleton.
   Definition detached (gen : nat) : cx -> prog reply :=
     match gen with O => fun _ : cx => Ret ReplyNone | S g' => queryg g' (N.to_nat max_queryer_recursion) end.
 
-  (* the client's own chain: not a Query — no debit, no nesting increment *)
-  Definition client (gen : nat) (c : cx) : prog reply :=
+  (* the client's own chain: not a Query — no debit, no nesting increment.  [clientg gen]: the construction for any
+     number of levels of detached queryers (what the code was before 1508bf1, when a walk could start a walk) *)
+  Definition clientg (gen : nat) (c : cx) : prog reply :=
     let nq := queryg gen (N.to_nat max_queryer_recursion) in
     pipeline nq (detached gen) (vlab nq (detached gen) O Lmax G) c.
+
+  (* The code as it is (since 1508bf1): ONE level.  The client's tree uses [queryg 1]; the walks it starts run on
+     [queryg 0], whose own "detached queryer" is the empty program — it is never reached, because every context inside a
+     walk carries the mark (cx_fresh has it, every child context inherits it) and processDelegation tests it
+     ([resolve_F]: v6 && negb (cx_walk c)).  Theorems walk_contexts_inherit_mark / detached_generations_at_most_one say so
+     about every trace. *)
+  Definition walk_levels : nat := 1.
+  Definition client (c : cx) : prog reply := clientg walk_levels c.
 End Skeleton.
 
 (* ---- the forwarder (middleware/forwarder ServeDNS; failover's dispatch has the same BeforeAttempt): the configured
@@ -726,4 +742,20 @@ Fixpoint forward (be : bool) (n : nat) : prog reply :=
       end)
   end.
 
-Definition cx0 : cx := mk_cx false O O false.
+Definition cx0 : cx := mk_cx false O O false false.
+
+(* ---- generations of detached walks, read off an event sequence: the generation of a sub-run is the number of walk
+   starts (a run whose context carries the walk mark, started from one whose context does not — or from nowhere) on its
+   path from the client's own chain.  [gens_of g st tr]: the generation of every sub-run of [tr], in order, when the
+   open run has generation [g] and walk mark [wk], the runs below it [st]. *)
+Definition gen_step (parent_walk : bool) (g : nat) (ch : slabel) : nat :=
+  if cx_walk (sl_cx ch) && negb parent_walk then S g else g.
+Fixpoint gens_of (wk : bool) (g : nat) (st : list (bool * nat)) (tr : list event) : list nat :=
+  match tr with
+  | [] => []
+  | EvX _ _ :: r => gens_of wk g st r
+  | EvS l _ _ :: r => let g' := gen_step wk g l in g' :: gens_of (cx_walk (sl_cx l)) g' ((wk, g) :: st) r
+  | EvE :: r => match st with (w, p) :: st' => gens_of w p st' r | [] => [] end
+  end.
+(* what the walk mark says about a sub-run's generation: 1 inside a walk, 0 outside *)
+Definition mark_gen (l : slabel) : nat := b2n (cx_walk (sl_cx l)).
